@@ -76,13 +76,25 @@ theorem C08_precise (fe : FnEnv) (q : Q) (c : Caps) (h : stmtCaps fe (.query q) 
     | false => exact absurd hs (query_precise h hd)
   · exact query_dml h
 
-/-- **C08_declare.** `create function` keeps the function environment well-formed: a function whose
-body records DML becomes Modifying (declared lower = rejected), so a non-Modifying function is
-pure; and a function whose body contains DML is Modifying for every later caller. -/
+/-- **C08_declare.** `create function` keeps the function environment well-formed (a function that is
+not Modifying reaches no DML statement, and a function that reaches none is pure), and a function
+whose body reaches an INSERT / UPDATE / DELETE statement - in ANY position of the body: WITH binding,
+FOR iterator/body, shape computed of a free object / INSERT / UPDATE, clause, operand, argument,
+conflict clause - or calls a function that does (chains f → g → … → insert) is stored as Modifying.
+(A body that only calls a declared-Modifying function with a pure body is NOT inferred Modifying: the
+real inference takes the volatility of the inlined body.) -/
 theorem C08_declare (fe fe' : FnEnv) (decl : Option Bool) (params : List Nat) (body : Q)
     (hwf : fe.WF) (h : declare fe decl params body = .ok fe') :
-    fe'.WF ∧ (containsDML fe body = true → fnModifying fe' fe.length = true) :=
+    fe'.WF ∧ (containsStmt fe body = true →
+      fnModifying fe' fe.length = true ∧ fnDmlStmt fe' fe.length = true) :=
   ⟨declare_wf hwf h, declare_modifying h⟩
+
+/-- **C08_chain.** Reaching a DML statement (directly or through called functions) is a special case
+of containing DML, so - with `C08_declare` and `C08_dml` - every accepted statement that calls,
+at any depth and through any chain of functions, a function whose body writes gets MODIFICATIONS. -/
+theorem C08_chain (fe : FnEnv) (q : Q) (c : Caps) (hs : containsStmt fe q = true)
+    (h : stmtCaps fe (.query q) = .ok c) : sub MODIFICATIONS c :=
+  query_dml h (containsStmt_containsDML hs)
 
 /-- **C08_group.** The capabilities of a unit group are the bitwise OR (= union) of the units':
 bit by bit, as an upper bound, as the least one; and the `caps & ~allowed` test of
@@ -162,6 +174,32 @@ example :
 /-- declaring such a function with a lower volatility is rejected -/
 example : (match declare exFe (some false) [] (.withB 1 (.call 1 .nil) (.var 1)) with
     | .error .volatility => true | _ => false) = true := by decide
+
+/-- the only DML of the body sits in a computed of a free-object shape
+(`select (select { a := (insert T) }).a`, volatility omitted): the function is Modifying, a function
+calling it too, `select g()` is flagged; the same free object in a WITH binding is rejected -/
+example :
+    (match declare exFe none [] (.op (.cons (.free (.cons (.insert 1 .nil .nil .nil) .nil)) .nil)) with
+     | .ok fe4 =>
+       match declare fe4 none [] (.call 3 .nil) with
+       | .ok fe5 => fnModifying fe5 3 && fnDmlStmt fe5 4 &&
+           (stmtCaps fe5 (.query (.call 4 .nil)) == .ok MODIFICATIONS) &&
+           (stmtCaps fe5 (.query (.withB 0 (.free (.cons (.insert 1 .nil .nil .nil) .nil)) (.var 0)))
+              == .error .shape)
+       | .error _ => false
+     | .error _ => false) = true := by decide
+
+/-- a function that only calls a declared-Modifying function with a pure body (f3 below) is not
+Modifying itself (volatility of the inlined body), although a direct call of f3 is flagged -/
+example :
+    (match declare exFe (some true) [0] (.var 0) with
+     | .ok fe4 =>
+       match declare fe4 none [] (.call 3 (.cons (.lit 1) .nil)) with
+       | .ok fe5 => fnModifying fe5 3 && !fnModifying fe5 4 &&
+           (stmtCaps fe5 (.query (.call 3 (.cons (.lit 1) .nil))) == .ok MODIFICATIONS) &&
+           (stmtCaps fe5 (.query (.call 4 .nil)) == .ok NONE)
+       | .error _ => false
+     | .error _ => false) = true := by decide
 
 /-- DML in a FILTER clause is rejected, a read-only query is unflagged and pure -/
 example : stmtCaps exFe (.query (.select (.objs 1) .nil (.cons (.call 1 .nil) .nil) .nil .nil))
